@@ -66,6 +66,10 @@ def execute(case, seed, choices=None):
     import billiard.pool as P
     ctx = poolsim.PoolContext()
     W = OR.World(k, case, P)
+    if case.get('th_preempt'):
+        # (Popen.wait() is where the scanner looks at the worker's handle after the TERM)
+        k.enable_func_preemption(('billiard/pool.py', 'billiard/popen_fork.py'), ('_trywaitkill', 'wait'), 0.5, 0.7,
+                                 stall_dur=case['th_preempt'])
 
     def on_child(child, process_obj):
         W.on_worker_started(child, process_obj)
